@@ -588,3 +588,35 @@ silent("c08-benign-chain-early-binding-default-arg", ["C08", "C01", "C03", "C04"
        "        for bijection in self.bijections:\n            x = bijection.transform(x, condition)\n        return x\n",
        "        steps = [lambda v, b=bijection: b.transform(v, condition) for bijection in self.bijections]\n"
        "        for step in steps:\n            x = step(x)\n        return x\n")
+
+# ------------------------------------------------------------------------------ round 6 rules
+fire("c15-jitted-closure-captures-per-batch-key", ["C15", "C14"], "flowjax/train/data_fit.py",
+     "    loop = tqdm(range(max_epochs), disable=not show_progress)\n",
+     "    @eqx.filter_jit\n    def val_loss(params, *batch):\n        return loss_fn(params, static, *batch, key=subkey)\n\n"
+     "    loop = tqdm(range(max_epochs), disable=not show_progress)\n")
+silent("c15-benign-plain-closure-reads-current-key", ["C15", "C16", "C14"], "flowjax/train/data_fit.py",
+       "            loss_i = loss_fn(params, static, *batch, key=subkey)\n            batch_losses.append(loss_i)\n"
+       "        losses[\"val\"].append",
+       "            loss_i = (lambda p, *b: loss_fn(p, static, *b, key=subkey))(params, *batch)\n"
+       "            batch_losses.append(loss_i)\n        losses[\"val\"].append")
+CORPUS.append(dict(id="c14-error-if-result-discarded", props=["C14", "C11"], expect="fire", rule=None, edits=[
+    ("flowjax/wrappers.py", "    return eqx.error_if(\n        param_inv,", "    eqx.error_if(\n        param_inv,"),
+    ("flowjax/wrappers.py", "        f\"the bijection used for reparameterizing ({type(bijection).__name__}).\",\n    )\n",
+     "        f\"the bijection used for reparameterizing ({type(bijection).__name__}).\",\n    )\n    return param_inv\n")]))
+fire("c04-leaky-tanh-slope-is-array-leaf", ["C04", "C07"], B + "tanh.py",
+     "        self.linear_grad = math.exp(_tanh_log_grad(max_val))",
+     "        self.linear_grad = jnp.exp(_tanh_log_grad(max_val))")
+fire("c04-affine-scale-not-broadcast", ["C04", "C02", "C05"], B + "affine.py",
+     "        self.loc, scale = jnp.broadcast_arrays(\n            *(arraylike_to_array(a, dtype=float) for a in (loc, scale)),\n        )\n        self.shape = scale.shape",
+     "        loc, scale = (arraylike_to_array(a, dtype=float) for a in (loc, scale))\n"
+     "        self.shape = jnp.broadcast_shapes(loc.shape, scale.shape)\n        self.loc = jnp.broadcast_to(loc, self.shape)")
+fire("c06-mapped-key-function-ignores-its-key", "C06", "flowjax/distributions.py",
+     "        key_size = max(1, prod(key_shape))  # Still need 1 key for scalar sample\n        return jnp.reshape(jr.split(key, key_size), (*key_shape, 2))",
+     "        keys = jnp.vectorize(lambda k: jr.split(key, max(1, prod(key_shape))), signature='(2)->(n,2)')(key)\n"
+     "        return jnp.reshape(keys, (*key_shape, 2))", "C06.keys")
+fire("c16-patience-window-slice", "C16", "flowjax/train/data_fit.py",
+     "        elif count_fruitless(losses[\"val\"]) > max_patience:",
+     "        elif min(losses[\"val\"][:-1]) < min(losses[\"val\"][:-1][-max_patience:]):", "C16.stop")
+fire("c13-scalar-cond-shape-truthiness", "C13", B + "bijection.py",
+     "                and condition.shape != bijection.cond_shape",
+     "                and bijection.cond_shape and condition.shape != bijection.cond_shape")
